@@ -12,8 +12,9 @@
                            SPECIFICATION: the assignment A (leave / gate / left / right / both per gate) uses permitted
                            kinds only, every component of the wire-segment graph has at most W segments, and the product
                            of the per-cut factors (gamma, 4, 4, 16) is c.  Independent of all search data structures.
-     pruning_sound_for ... every such assignment is matched in cost by the greedy incumbent or by a goal reachable from
-                           start_of i  (this is the statement c08_pruning_sound)
+     pruning_sound_for ... every such assignment is matched in cost by a goal reachable from start_of i: neither the guards /
+                           no-merge clauses nor the wire-cut budget exclude an optimum (the statement c08_pruning_sound)
+     spec_within i         some assignment that meets the width limit costs at most max_gamma ("max_gamma >= optimum")
      gammas_ok_in i        every gate gamma of the request is >= 1 (true for kappa of every QPD basis: C15; monitored) *)
 From Coq Require Import QArith String.
 From CKT Require Import Model.CutFinder Proofs.BestFirstP Proofs.BestFirstSpec Proofs.BestFirstFuel Extracted.Facts.
@@ -81,7 +82,7 @@ Proof. exact flag_sound_spec. Qed.
    on at most 4 qubits (idle qubits included) — 622 circuits —, every width limit 1..4, every cut-kind
    combination, every max_gamma, arbitrary instruction ids / gate names (lab).
    The same statement for 1..4 gates (14 510 circuits) is proved in Proofs/BestFirstSpec4.v (pruning_sound_bounded4,
-   flag_sound_bounded4; ~4 CPU-minutes of vm_compute, closed under the global context) but kept OUT of this file's
+   flag_sound_bounded4, unrestricted_bounded4, seed_independent_bounded4; ~4 CPU-minutes of vm_compute, closed under the global context) but kept OUT of this file's
    cone because `coqchk` re-checks vm_compute casts ~18x slower (over an hour for that part).
    c08_pruning_sound_open (not proved; never contradicted by the brute-force oracle of harness/c08.py):
      forall gs gl wl W mg nq, gammas_ok gs -> (gl || wl = true) -> well-formed two-qubit gates on qubits < nq ->
@@ -124,6 +125,37 @@ Theorem c08_result_attained : forall fuel i r, gammas_ok_in i -> find_cuts_full 
   (forall g, greedy_of (fa_of i) (nq_of i) = Some g -> (md_overhead (fr_meta r) <= cost g * cost g)%Q) /\
   (md_overhead (fr_meta r) == cost (fr_best r) * cost (fr_best r))%Q.
 Proof. exact result_attained. Qed.
+
+(* (4) in terms of the SPECIFICATION, under the hypothesis c08_pruning_sound for the request ... *)
+Theorem c08_unrestricted_spec : forall fuel i r, gammas_ok_in i ->
+  pruning_sound_for (fa_gates (fa_of i)) (fi_gate_lo i) (fi_wire_lo i) (fi_W i) (fi_max_gamma i) (nq_of i) ->
+  find_cuts_full fuel i = Val r -> fi_max_backjumps i = None -> spec_within i ->
+  md_minimum_reached (fr_meta r) = true.
+Proof. exact unrestricted_spec. Qed.
+
+Theorem c08_seed_independent_spec : forall fuel1 fuel2 i t1 t2 r1 r2, gammas_ok_in i ->
+  pruning_sound_for (fa_gates (fa_of i)) (fi_gate_lo i) (fi_wire_lo i) (fi_W i) (fi_max_gamma i) (nq_of i) ->
+  fi_max_backjumps i = None -> spec_within i ->
+  find_cuts_full fuel1 (with_tape i t1) = Val r1 -> find_cuts_full fuel2 (with_tape i t2) = Val r2 ->
+  (md_overhead (fr_meta r1) == md_overhead (fr_meta r2))%Q.
+Proof. exact seed_independent_spec. Qed.
+
+(* ... and without that hypothesis on the finite domain *)
+Theorem c08_unrestricted_bounded : forall fuel i r lab c used, In (c, used) (circuits_upto 4 [3%Q; 7%Q] 3) ->
+  fa_gates (fa_of i) = gates_from lab 0 c -> used <= nq_of i <= 4 -> 1 <= fi_W i <= 4 ->
+  In (fi_gate_lo i, fi_wire_lo i) [(true, false); (false, true); (true, true)] ->
+  find_cuts_full fuel i = Val r -> fi_max_backjumps i = None -> spec_within i ->
+  md_minimum_reached (fr_meta r) = true.
+Proof. exact unrestricted_bounded3. Qed.
+
+Theorem c08_seed_independent_bounded : forall fuel1 fuel2 i t1 t2 r1 r2 lab c used,
+  In (c, used) (circuits_upto 4 [3%Q; 7%Q] 3) ->
+  fa_gates (fa_of i) = gates_from lab 0 c -> used <= nq_of i <= 4 -> 1 <= fi_W i <= 4 ->
+  In (fi_gate_lo i, fi_wire_lo i) [(true, false); (false, true); (true, true)] ->
+  fi_max_backjumps i = None -> spec_within i ->
+  find_cuts_full fuel1 (with_tape i t1) = Val r1 -> find_cuts_full fuel2 (with_tape i t2) = Val r2 ->
+  (md_overhead (fr_meta r1) == md_overhead (fr_meta r2))%Q.
+Proof. exact seed_independent_bounded3. Qed.
 
 (* termination: with fuel above the size of the complete 5-ary tree of depth #gates the model never runs out of fuel *)
 Theorem c08_enough_fuel : forall fuel i, tree_size 5 (length (fa_gates (fa_of i))) + 3 <= fuel ->
@@ -176,6 +208,9 @@ Proof.
   split; [exact R|split; [exact Gg|now apply Qleb_true]].
 Qed.
 
+Example c08_ex_spec_within : spec_within (f3_input 3 (fun _ => 0%Q)).
+Proof. exists [CutGate; Leave], (1 * 3 * 1)%Q. split; [reflexivity|discriminate]. Qed.
+
 (* ---- facts obligation: the wire-cut factors of the specification are those of the source ---- *)
 Theorem c08_facts :
   (kind_factor None CutLeft == inject_Z (Z.of_nat cf_left_wire_mult))%Q /\
@@ -204,6 +239,10 @@ Print Assumptions c08_flag_sound_bounded.
 Print Assumptions c08_unrestricted.
 Print Assumptions c08_seed_independent.
 Print Assumptions c08_result_attained.
+Print Assumptions c08_unrestricted_spec.
+Print Assumptions c08_seed_independent_spec.
+Print Assumptions c08_unrestricted_bounded.
+Print Assumptions c08_seed_independent_bounded.
 Print Assumptions c08_enough_fuel.
 Print Assumptions c08_facts.
 Print Assumptions c08_fact_requeue.
